@@ -51,25 +51,45 @@ def liveAnn (srcs : List Source) : List Op → List (Addr × Nat × Nat) → Lis
           | none => liveAnn srcs rest acc
       | _ => liveAnn srcs rest acc
 
+/-- the operations up to and including flush number `n` (counted from 0) -/
+def uptoFlush : List Op → Nat → List Op
+  | [], _ => []
+  | .flush :: _, 0 => [.flush]
+  | .flush :: rest, n + 1 => .flush :: uptoFlush rest n
+  | op :: rest, n => op :: uptoFlush rest n
+
 /-- Class of the history reported with a failure (it is part of the finding's signature): did some
     soft-reset re-walk of the RIB run while changes emitted before it were still queued behind it
-    in the session's channel (`overtaken`, an observed fact about the schedule)?  Otherwise: does
-    the history start an LLGR stale period (every route of the source changes without an
+    in the session's channel (`overtaken`) AND was a destination id handed to another prefix
+    (`reuse`) — the two ingredients of finding S36, both observed facts about the history so far?
+    Otherwise: did an LLGR stale period start (every route of the source changes without an
     announcement)? -/
-def scheduleClass (c : Case01) (o : Obs01) : String :=
-  if o.overtaken > 0 then " class=refresh-overtook-queued-changes"
-  else if (c.pre ++ c.ops).any (fun op => match op with | .llgr _ => true | _ => false) then " class=llgr-restale"
+def classOf (hist : List Op) (reuse overtaken : Nat) : String :=
+  if overtaken > 0 && reuse > 0 then " class=refresh-overtook-queued-changes"
+  else if hist.any (fun op => match op with | .llgr _ => true | _ => false) then " class=llgr-restale"
   else " class=in-order"
 
-def check (c : Case01) (o : Obs01) : Verdict :=
-  let live := liveAnn c.srcs (c.pre ++ c.ops) []
+/-- "Once its pending updates have been flushed" and nothing is left in the channel: the
+    neighbour's view against what a brand-new session would be sent, for the history `hist` so far -/
+def pointCheck (c : Case01) (hist : List Op) (reuse overtaken : Nat) (final dump : Mirror) (sfx : String) : Verdict :=
+  let live := liveAnn c.srcs hist []
   let liveNets : List Net := live.filterMap (fun x => (c.pfxs[x.2.1]?).map (·.1))
-  let cls := scheduleClass c o
-  if o.final.any (fun r => !liveNets.contains r.net) then .fail ("view-holds-prefix-absent-from-rib" ++ cls)
-  else if o.final.any (fun r => !o.dump.any (sameKey r)) then .fail ("stale-route-not-withdrawn" ++ cls)
-  else if o.dump.any (fun r => !o.final.any (sameKey r)) then .fail ("route-of-fresh-dump-missing" ++ cls)
-  else if o.final.any (fun r => !o.dump.any (sameRoute r)) then .fail ("route-differs-from-fresh-dump" ++ cls)
-  else if !(decide (o.final.map (fun r => (r.net, r.pid))).Nodup) then .fail ("duplicate-key-in-view" ++ cls)
+  let cls := classOf hist reuse overtaken ++ sfx
+  if final.any (fun r => !liveNets.contains r.net) then .fail ("view-holds-prefix-absent-from-rib" ++ cls)
+  else if final.any (fun r => !dump.any (sameKey r)) then .fail ("stale-route-not-withdrawn" ++ cls)
+  else if dump.any (fun r => !final.any (sameKey r)) then .fail ("route-of-fresh-dump-missing" ++ cls)
+  else if final.any (fun r => !dump.any (sameRoute r)) then .fail ("route-differs-from-fresh-dump" ++ cls)
+  else if !(decide (final.map (fun r => (r.net, r.pid))).Nodup) then .fail ("duplicate-key-in-view" ++ cls)
   else .ok
+
+def quietCheck (c : Case01) (q : Quiet) : Verdict :=
+  pointCheck c (c.pre ++ uptoFlush c.ops q.nth) q.reuse q.overtaken q.mirror q.dump s!" at={q.nth}"
+
+/-- every flush that left nothing in the channel is judged, then the end of the history (everything
+    delivered, flushed) -/
+def check (c : Case01) (o : Obs01) : Verdict :=
+  match o.quiet.find? (fun q => quietCheck c q != .ok) with
+  | some q => quietCheck c q
+  | none => pointCheck c (c.pre ++ c.ops) o.reuse o.overtaken o.final o.dump ""
 
 end Rbgp.Export.Spec01
